@@ -153,6 +153,12 @@ def length_set(mtu):
     return [0, 1, P - 6, P - 5, P - 1, P, P + 1, P // 2, P // 2 + 1]
 
 
+def frag_length_set(mtu):
+    """fragmented payloads whose LAST fragment sits at the edge of what one datagram carries"""
+    P, F = caps(mtu)
+    return [F + P - 7, F + P - 6, F + P - 5, F + P - 1, F + P, F + P + 1, 2 * F, 2 * F + 1, 2 * F + P - 6, 2 * F + P - 5, 2 * F + P]
+
+
 def stall_scenario(params, ch):
     """retry-mode messages first sent on consecutive send opportunities, acks withheld, then the owner
     stalls (one long frame): everything due for resend meets in ONE packet build"""
@@ -272,6 +278,10 @@ def _typ(data):
     return data[12]
 
 
+def P_of(mtu):
+    return caps(mtu)[0]
+
+
 def params_list(tier):
     out = []
     mtus = [512, 1095, 1096, 1500] if tier == "quick" else [512, 513, 576, 1000, 1094, 1095, 1096, 1097, 1098, 1400, 1499, 1500]
@@ -286,6 +296,14 @@ def params_list(tier):
                         if tier == "quick" and n == 2 and mode != "none" and path != "client":
                             continue
                         out.append((mtu, path, tuple((L, mode) for L in combo), None))
+            for mode in ("none", "retry"):
+                if tier == "quick" and mode == "retry" and path != "client":
+                    continue
+                for L in frag_length_set(mtu):
+                    out.append((mtu, path, ((L, mode),), None))
+                    if path == "client" or tier == "thorough":
+                        out.append((mtu, path, ((1, mode), (L, mode)), None))
+                        out.append((mtu, path, ((L, mode), (P_of(mtu), "none")), None))
             # mixed retry modes on one queue
             for combo in itertools.product([0, ls[4], ls[5], ls[7]], repeat=3):
                 out.append((mtu, path, ((combo[0], "retry"), (combo[1], "none"), (combo[2], "best")), None))
